@@ -13,6 +13,8 @@ EXPLANATION = ('(a) Single routing seed: SeededRandomState::with_seed is called 
                'carrying the join error or the task error in the two failure arms, None on success; and every loop that sends to each channel of a collection (wherever it lives in the call tree of wait_for_task) runs until its iterator is exhausted on every path — a failed send to an output that was dropped early must not stop the others from receiving theirs. (e) PerPartitionStream::'
                'poll_next_inner returns Pending only by delegation to an inner poll. Clause (d) — no engine error of pull_from_input is '
                'swallowed — is decided by the C20 site rule. (f) Both routers hash into a buffer that is all zeros on every path (vec![0; n] or clear()+resize(n, 0)), so the hash of a NULL key cannot depend on an earlier batch. Exact placement of rows, spilling order and schedules are not decided.')
+# path rules cut loops after a bounded number of iterations: complete over rule instances, not over all unrollings
+EXHAUSTIVE = False
 ASSUMPTIONS = ['loops unrolled twice: "every output" is checked per iteration of the for-loop over txs']
 
 RP = 'datafusion_physical_plan::repartition::'
